@@ -20,6 +20,8 @@ RULE = (
     "table > 4096. A mutated stream is used only if the reference decoder R rejects it with the intended kind at the "
     "intended row. Oracle: parse_jelly_flat and parse_jelly_grouped (generic; rdflib for RDF 1.1 content) raise an "
     "Exception and everything yielded before it is a prefix of the events denoted by the rows before the offending one. "
+    "Plus an atheris coverage-guided differential campaign: any bytes R rejects with a catalogued kind must make "
+    "parse_jelly_flat raise without having yielded anything the earlier rows do not denote. "
     "non-trivial = violation placed after >=1 valid statement; distinct by (stream hash, class, position)."
 )
 ASSUMPTIONS = [
@@ -134,12 +136,22 @@ def scen_hash(case):
 
 
 def check_case(case):
+    if case.get("kind") == "bytes":
+        from vlib import diffcheck
+
+        v, _ = diffcheck.check_bytes(bytes.fromhex(case["hex"]), assert_on=("invalid",))
+        return v
     return body(case, None)
 
 
 def run_shard(spec) -> Acc:
     acc = Acc()
     acc.MAX_SAMPLES = 2
+    if spec.get("part") == "atheris_diff":
+        from vlib import diffcheck
+
+        diffcheck.run_campaign(spec, acc, "C16:", "invalid")
+        return acc
     hyp_search(scen.e_case(max_len=spec.get("max_len", 8), with_namespaces=True), body, acc,
                seed=spec["seed"] * 1000 + spec["shard"], max_examples=spec["n"], known=set(spec["known"]))
     return acc
@@ -147,4 +159,7 @@ def run_shard(spec) -> Acc:
 
 def plan(tier, seed):
     n = 30 if tier == "quick" else 700
-    return [{"shard": i, "n": n, "max_len": 8 if tier == "quick" else 14} for i in range(16)]
+    specs = [{"shard": i, "n": n, "max_len": 8 if tier == "quick" else 14} for i in range(14)]
+    runs = 20000 if tier == "quick" else 2500000
+    specs += [{"part": "atheris_diff", "shard": 200 + i, "runs": runs, "wall": 200 if tier == "quick" else 1500} for i in range(2)]
+    return specs
